@@ -470,7 +470,12 @@ func lowerType(t *TypeSpec, v Val, rv reflect.Value) {
 			rv.Set(reflect.Zero(rv.Type()))
 			return
 		}
-		m := reflect.MakeMapWithSize(rv.Type(), len(v.M))
+		// every other map grows by plain inserts (no size hint): depending on the entry count it
+		// is then in the middle of an incremental growth, which is what iteration code must survive
+		m := reflect.MakeMap(rv.Type())
+		if len(v.M)%2 == 0 {
+			m = reflect.MakeMapWithSize(rv.Type(), len(v.M))
+		}
 		kt, vt := rv.Type().Key(), rv.Type().Elem()
 		for _, kv := range v.M {
 			k := reflect.New(kt).Elem()
